@@ -39,6 +39,8 @@ type c04Input struct {
 	IDLabel bool `json:"id_label,omitempty"`
 	// Long: every message is 300 bytes longer (frames beyond any short-line fast path, one after the other)
 	Long bool `json:"long,omitempty"`
+	// Early: timestamps are tenths of a second instead of seconds: every record lies in the first second after the epoch
+	Early bool `json:"early,omitempty"`
 }
 
 func c04Rec(in c04Input, i, j, ts int) (msg string, ns int64) {
@@ -47,6 +49,9 @@ func c04Rec(in c04Input, i, j, ts int) (msg string, ns int64) {
 	}
 	if in.Long {
 		return strings.Repeat("x", 300) + fmt.Sprintf("c%d#%d", i, j), int64(ts) * sec
+	}
+	if in.Early {
+		return fmt.Sprintf("c%d#%d", i, j), int64(ts) * sec / 10
 	}
 	if !in.Empty {
 		return fmt.Sprintf("c%d#%d", i, j), int64(ts) * sec
@@ -345,6 +350,7 @@ func c04Run(r *vkit.Run) {
 		emit(c04Input{Logs: logs, Mode: "bound", Bound: 1, SameMsg: true})
 		emit(c04Input{Logs: logs, Mode: "bound", Bound: 1, IDLabel: true})
 		emit(c04Input{Logs: logs, Mode: "bound", Bound: 1, Long: true})
+		emit(c04Input{Logs: logs, Mode: "bound", Bound: 1, Early: true})
 		for pre := 1; pre <= 3; pre++ {
 			emit(c04Input{Logs: logs, Mode: "bound", Bound: 1, Pre: pre})
 			emit(c04Input{Logs: logs, Mode: "bound", Bound: 1, Pre: pre, PreAlive: true})
